@@ -6,6 +6,18 @@ From Coq Require Import QArith Lia Setoid Morphisms.
 Local Open Scope Z_scope.
 Local Open Scope res_scope.
 
+Lemma vnodes_closed' : forall f x x' y, (wsize x <= f)%nat -> In x' (vnodes f x) -> In y (vchildren x') -> In y (vnodes f x).
+Proof.
+  induction f as [|f IH]; intros x x' y L H Hy.
+  - pose proof (wsize_pos x). lia.
+  - cbn [vnodes] in *. destruct H as [<-|H].
+    + right. apply in_flat_map. exists y. split; [exact Hy|]. destruct f; cbn [vnodes]; left; reflexivity.
+    + right. apply in_flat_map in H. destruct H as (c & Hc & H). apply in_flat_map. exists c. split; [exact Hc|].
+      pose proof (vchildren_wsize x c Hc). eapply IH; [lia | exact H | exact Hy].
+Qed.
+Lemma node_child' : forall x0 x y, node x0 x -> In y (vchildren x) -> node x0 y.
+Proof. unfold node, visited_nodes. intros x0 x y H Hy. eapply vnodes_closed'; [apply le_n | exact H | exact Hy]. Qed.
+
 Section Sound2.
   Variables rho rhoc : list N -> qi.
   Variable sd : mdict.
@@ -169,9 +181,9 @@ Section Sound2.
   Variable x0 : expr.
   Hypothesis Hnodes : forall y, node x0 y -> snode_ok sd y = true.
 
-  Lemma s_apply : forall f x vis, node x0 x -> ap_ok (fun v y => apply G f sp false sd v y) x.
+  Lemma s_apply : forall f x, node x0 x -> ap_ok (fun v y => apply G f sp false sd v y) x.
   Proof.
-    induction f as [|f IH]; intros x vis N v r v' H; [discriminate H|].
+    induction f as [|f IH]; intros x N v r v' H; [discriminate H|].
     pose proof (Hnodes x N) as NO. cbn [apply] in H.
     destruct (mlookup x sd) as [[k val]|] eqn:ML.
     - (* found in the map: a symbol *)
@@ -181,8 +193,8 @@ Section Sound2.
       destruct x as [| nm | | | | | | | | | | | | | | | | ]; try discriminate SY.
       split; [apply (Hvals (k, val)); apply (mlookup_in _ _ _ _ ML)|].
       split; [|intros L; discriminate L]. cbn [denote]. unfold subst_val. rewrite ML. reflexivity.
-    - apply (s_bvisit _ x v r v' NO ML); [|exact H].
-      intros y Hy. apply (IH y v). eapply node_child; eassumption.
+    - apply (s_bvisit (SubsModel.apply G f sp false sd) x v r v' NO ML); [|exact H].
+      intros y Hy. apply (IH y). exact (node_child' x0 x y N Hy).
   Qed.
 End Sound2.
 
@@ -190,7 +202,7 @@ End Sound2.
    boolean computed by the model --, the model's uncached subs / xreplace / msubs / ssubs returns a well-formed
    value whose denotation under every valuation equals the denotation of x under the substituted valuation *)
 Theorem subs_sound_guarded : forall kind sd x, subs_guard kind sd x = true ->
-  exists r, subs_gen kind false sd x = Ok r /\ wf r = true /    forall rho rhoc : list N -> qi, qi_eq (denote rho rhoc r) (denote (subst_val rho rhoc sd) rhoc x).
+  exists r, subs_gen kind false sd x = Ok r /\ wf r = true /\ forall rho rhoc : list N -> qi, qi_eq (denote rho rhoc r) (denote (subst_val rho rhoc sd) rhoc x).
 Proof.
   intros kind sd x Gd. unfold subs_guard in Gd. apply andb_prop in Gd. destruct Gd as [St Ok_].
   unfold subs_static_ok in St. apply andb_prop in St. destruct St as [St Spk]. apply andb_prop in St. destruct St as [Nd Vl].
@@ -201,14 +213,14 @@ Proof.
   exists r. split; [apply subs_g_refines; exact E|].
   unfold subs_g, subs_with in E. apply bind_ok in E. destruct E as ([r' v'] & Ea & E). injection E as <-.
   split.
-  - exact (proj1 (s_apply (fun _ => qi_zero) (fun _ => qi_zero) sd (subs_pow kind) Hvals Hspk x Hnodes _ x [] (node_root x) _ _ _ Ea)).
+  - exact (proj1 (s_apply (fun _ => qi_zero) (fun _ => qi_zero) sd (subs_pow kind) Hvals Hspk x Hnodes _ x (node_root x) _ _ _ Ea)).
   - intros rho rhoc.
-    exact (proj1 (proj2 (s_apply rho rhoc sd (subs_pow kind) Hvals Hspk x Hnodes _ x [] (node_root x) _ _ _ Ea))).
+    exact (proj1 (proj2 (s_apply rho rhoc sd (subs_pow kind) Hvals Hspk x Hnodes _ x (node_root x) _ _ _ Ea))).
 Qed.
 
 (* the same with the cache, where cache irrelevance applies *)
 Theorem subs_sound_cached_guarded : forall kind sd x, subs_guard kind sd x = true -> keys_consistent sd x = true ->
-  exists r, subs_gen kind true sd x = Ok r /\ wf r = true /    forall rho rhoc : list N -> qi, qi_eq (denote rho rhoc r) (denote (subst_val rho rhoc sd) rhoc x).
+  exists r, subs_gen kind true sd x = Ok r /\ wf r = true /\ forall rho rhoc : list N -> qi, qi_eq (denote rho rhoc r) (denote (subst_val rho rhoc sd) rhoc x).
 Proof.
   intros kind sd x Gd Kc. destruct (subs_sound_guarded kind sd x Gd) as (r & E & W & V).
   exists r. rewrite (subs_cache_irrelevant_guarded kind sd x Kc). auto.
